@@ -1,7 +1,8 @@
 \* the clauses that depend on the design switches (see header of Inventory.tla), checked with -continue so that each is reported
-CONSTANTS NLeaf = 6  NBlk = 3  NAsm = 2  MaxLevel = 2  LMax = 20000  VMax = 100
+CONSTANTS NLeaf = 6  NBlk = 3  NAsm = 2  MaxLevel = 2  LSrc = 600  LMax = 20000  VMax = 100
 CONSTANTS Parent <- TCoreParent  Area <- TCoreArea  Height <- TCoreHeight  Sym <- TCoreSym  W <- Wt  N0 <- TCoreN0  H0 <- TCoreH0
 CONSTANTS Targets <- TCoreTargetsProbe  Vals <- ValsQ  Facs <- FacsQ  Masses <- MassesQ  Maps <- MapsQ  FracMaps <- FracMapsQ  AddMaps <- AddMapsQ  SetMaps <- SetMapsQ
+CONSTANTS AdjSets <- AdjSetsQ  EnrFracs <- EnrFracsQ  AdjMFs <- AdjMFsQ
 CONSTANTS HDom <- HDom123  HTargets <- None  HVals <- HDom123
 CONSTANTS LeafVolCut <- LeafVolCutEnv  ScaleRaises <- ScaleRaisesEnv
 INIT InitB
